@@ -2,6 +2,7 @@ package c13
 
 import (
 	"fmt"
+	"math"
 	"testing"
 
 	"pgregory.net/rapid"
@@ -430,7 +431,11 @@ func altLeaves(v hs.Value) []hs.Value {
 	case hs.IntV:
 		return []hs.Value{x + 1, hs.IntV(-int64(x) - 7)}
 	case hs.FloatV:
-		return []hs.Value{x + 0.5, hs.FloatV(float64(int64(x)) + 1)}
+		// ... and the closest neighbours: floats that differ in the last place are different values
+		up1 := math.Nextafter(float64(x), math.Inf(1))
+		up3 := math.Nextafter(math.Nextafter(up1, math.Inf(1)), math.Inf(1))
+		down1 := math.Nextafter(float64(x), math.Inf(-1))
+		return []hs.Value{x + 0.5, hs.FloatV(float64(int64(x)) + 1), hs.FloatV(up1), hs.FloatV(up3), hs.FloatV(down1)}
 	case hs.BoolV:
 		return []hs.Value{!x}
 	case hs.StrV:
